@@ -452,9 +452,9 @@ func newAZSelector(clientAZ string, startIdx int) func(uint16, []NodeInfo) int {
 		}
 
 		// Round-Robin on ALL available nodes
-		if count := uint32(len(nodes) - startIdx); count > 0 {
+		if count := len(nodes) - startIdx; count > 0 {
 			c := counter.Add(1)
-			return int(c%count) + startIdx
+			return int(c%uint32(count)) + startIdx
 		}
 
 		return -1
